@@ -3,6 +3,8 @@ import CelmaVerif.Lemmas.ContainersArr
 import CelmaVerif.Lemmas.ContainersBits
 import CelmaVerif.Lemmas.ContainersMap
 import CelmaVerif.Lemmas.ContainersTuple
+import CelmaVerif.Lemmas.ContainersCap
+import CelmaVerif.Lemmas.ContainersObs
 /-
   C06 — multi-value destinations end up as the fold of all values given.
 
@@ -20,7 +22,10 @@ open CelmaVerif CelmaVerif.Containers
     and convert (and do not repeat when duplicates are errors), the evaluation succeeds and the content is
     `finalSpec` of the element sequence — a closed form that does not mention uses: previous content (nothing if
     clear), then the values in order (first occurrences only if unique), appended / prepended / self-ordered,
-    sorted ascending if sort. -/
+    sorted ascending if sort.  `SeqState.content` is the model's representation (a stack in push order, a priority
+    queue ascending); what popping shows is stated in `C06_adapter_pop_order`.  On an error path (some element
+    refused) the content left behind is *not* cut independent: the uses before the refusing one were sorted, the
+    interrupted one is not (model fact, observed on the code as well; outside the property). -/
 theorem C06_fold {α : Type} [DecidableEq α] (E : Elem α) (hl : LawfulLe E.le) (k : SeqKind) (o : Opts)
     (hcfg : configure k o = .ok ()) (init : List α) (hwf : WF (E := E) (k := k) init)
     (cuts : List (List (List Char))) (hne : cuts ≠ []) (hsep : ∀ e ∈ cuts.flatten, o.sep ∉ e)
@@ -77,7 +82,8 @@ theorem C06_clear_once {α : Type} [DecidableEq α] (E : Elem α) (k : SeqKind) 
 
 /-- **Sorted ⇒ ascending**, for whatever was given: when `setSortData` is on, the content after any non-empty
     evaluation that went through is ascending; and the closed form of a sorted or self-ordering destination
-    is ascending. -/
+    is ascending.  (Ascending alone would be met by an empty result: that the result is the ascending
+    *rearrangement* of previous content and kept values, and the only one, is `C06_sort_is_sorting`.) -/
 theorem C06_sorted {α : Type} [DecidableEq α] (E : Elem α) (hl : LawfulLe E.le) (k : SeqKind) (o : Opts)
     (s s' : SeqState α) (uses : List (List Char)) (init vs : List α) :
     (o.sort = true → uses ≠ [] → run E k o s uses = .ok s' → Sorted E.le s'.content) ∧
@@ -98,6 +104,97 @@ theorem C06_sorted {α : Type} [DecidableEq α] (E : Elem α) (hl : LawfulLe E.l
     unfold finalSpec
     simp only [h, if_true]
     exact isort_sorted hl _
+
+/-- **Sort = the ascending rearrangement, nothing lost, nothing invented.**  (`C06_sorted` alone would be met by an
+    empty result.)  Under the hypotheses of `C06_fold`, for a sorted or self-ordering destination: the evaluation
+    succeeds, the content is ascending, it is a permutation of previous content (nothing if clear) ++ kept values
+    (`dedupInto base vs` = first occurrences not yet present if unique / set, else all of `vs`), and it is the only
+    ascending list with that property. -/
+theorem C06_sort_is_sorting {α : Type} [DecidableEq α] (E : Elem α) (hl : LawfulLe E.le) (k : SeqKind) (o : Opts)
+    (hcfg : configure k o = .ok ()) (init : List α) (hwf : WF (E := E) (k := k) init)
+    (cuts : List (List (List Char))) (hne : cuts ≠ []) (hsep : ∀ e ∈ cuts.flatten, o.sep ∉ e)
+    (hacc : ∀ e ∈ elements cuts, Accepts E o e)
+    (hdup : DupFree o (if o.clear then [] else init) (vals E o (elements cuts)))
+    (hs : (o.sort || k.ordered) = true) :
+    ∃ s', run E k o (SeqState.start init o) (usesOf o.sep cuts) = .ok s' ∧
+      Sorted E.le s'.content ∧
+      s'.content.Perm ((if o.clear then [] else init) ++
+        (if o.unique || k.isSet then dedupInto (if o.clear then [] else init) (vals E o (elements cuts))
+         else vals E o (elements cuts))) ∧
+      ∀ c, Sorted E.le c →
+        c.Perm ((if o.clear then [] else init) ++
+          (if o.unique || k.isSet then dedupInto (if o.clear then [] else init) (vals E o (elements cuts))
+           else vals E o (elements cuts))) → c = s'.content := by
+  refine ⟨_, C06_fold E hl k o hcfg init hwf cuts hne hsep hacc hdup, ?_, finalSpec_perm init _, ?_⟩
+  · simp only [finalSpec, hs, if_true]
+    exact isort_sorted hl _
+  · intro c hc hp
+    exact sorted_perm_eq hl hc (by simp only [finalSpec, hs, if_true]; exact isort_sorted hl _)
+      (hp.trans (finalSpec_perm (E := E) (k := k) (o := o) init _).symm)
+
+/-- **Nothing is lost, nothing invented, whatever the kind and the options**: the content after a successful
+    evaluation is a rearrangement of previous content (nothing if clear) ++ kept values; in particular a value is in
+    the destination afterwards iff it was there before (and not cleared) or was given. -/
+theorem C06_content_perm {α : Type} [DecidableEq α] (E : Elem α) (hl : LawfulLe E.le) (k : SeqKind) (o : Opts)
+    (hcfg : configure k o = .ok ()) (init : List α) (hwf : WF (E := E) (k := k) init)
+    (cuts : List (List (List Char))) (hne : cuts ≠ []) (hsep : ∀ e ∈ cuts.flatten, o.sep ∉ e)
+    (hacc : ∀ e ∈ elements cuts, Accepts E o e)
+    (hdup : DupFree o (if o.clear then [] else init) (vals E o (elements cuts))) :
+    ∃ s', run E k o (SeqState.start init o) (usesOf o.sep cuts) = .ok s' ∧
+      s'.content.Perm ((if o.clear then [] else init) ++
+        (if o.unique || k.isSet then dedupInto (if o.clear then [] else init) (vals E o (elements cuts))
+         else vals E o (elements cuts))) ∧
+      ∀ x, x ∈ s'.content ↔ x ∈ (if o.clear then [] else init) ∨ x ∈ vals E o (elements cuts) := by
+  refine ⟨_, C06_fold E hl k o hcfg init hwf cuts hne hsep hacc hdup, finalSpec_perm init _, ?_⟩
+  intro x
+  rw [(finalSpec_perm (E := E) (k := k) (o := o) init _).mem_iff]
+  unfold keepOf
+  by_cases h : (o.unique || k.isSet) = true
+  · rw [if_pos h]; exact mem_append_dedupInto
+  · rw [if_neg h]; exact List.mem_append
+
+/-- **Unique drops only duplicates**: the spec function `dedupInto seen vs` of `finalSpec` (what is kept of the
+    values `vs` when `seen` is already in the destination), characterised without reference to the model: it is a
+    subsequence of `vs` (order kept, nothing invented) without repetition; a value is kept iff it was given and
+    is not in the destination yet; value by value: the next value is kept iff it is neither in the destination
+    nor among the values before it (this equation and `dedupInto seen [] = []` determine the function); and
+    when nothing repeats, nothing is dropped. -/
+theorem C06_drops_only_duplicates {α : Type} [DecidableEq α] (seen vs : List α) :
+    (dedupInto seen vs).Sublist vs ∧ (dedupInto seen vs).Nodup ∧
+    (∀ x, x ∈ dedupInto seen vs ↔ x ∈ vs ∧ x ∉ seen) ∧
+    dedupInto seen ([] : List α) = [] ∧
+    (∀ a v, dedupInto seen (a ++ [v]) = dedupInto seen a ++ (if v ∈ seen ∨ v ∈ a then [] else [v])) ∧
+    (vs.Nodup → (∀ v ∈ vs, v ∉ seen) → dedupInto seen vs = vs) :=
+  ⟨dedupInto_sublist seen vs, dedupInto_nodup, fun _ => mem_dedupInto, rfl, fun a v => dedupInto_snoc seen a v,
+    dedupInto_eq_self⟩
+
+/-- **stack / queue / priority_queue, as seen by popping** (`observe`: a stack is popped from the end it was
+    pushed to, a priority queue largest first, a queue in arrival order).  Under the hypotheses of `C06_fold`
+    (sort and unique cannot be configured for these kinds): a stack delivers the values given in reverse order,
+    then what it delivered before; a queue what it delivered before, then the values in order; a priority queue
+    delivers a descending rearrangement of previous content and values, and that list is the only such one. -/
+theorem C06_adapter_pop_order {α : Type} [DecidableEq α] (E : Elem α) (hl : LawfulLe E.le) (k : SeqKind) (o : Opts)
+    (hcfg : configure k o = .ok ()) (hk : k.hasIterators = false) (init : List α)
+    (hwf : WF (E := E) (k := k) init)
+    (cuts : List (List (List Char))) (hne : cuts ≠ []) (hsep : ∀ e ∈ cuts.flatten, o.sep ∉ e)
+    (hacc : ∀ e ∈ elements cuts, Accepts E o e) :
+    ∃ s', run E k o (SeqState.start init o) (usesOf o.sep cuts) = .ok s' ∧
+      (k = .stack → observe k s'.content
+          = (vals E o (elements cuts)).reverse ++ observe k (if o.clear then [] else init)) ∧
+      (k = .queue → observe k s'.content
+          = observe k (if o.clear then [] else init) ++ vals E o (elements cuts)) ∧
+      (k = .prioq → Descending E.le (observe k s'.content) ∧
+        (observe k s'.content).Perm (observe k (if o.clear then [] else init) ++ vals E o (elements cuts)) ∧
+        ∀ c, Descending E.le c →
+          c.Perm (observe k (if o.clear then [] else init) ++ vals E o (elements cuts)) →
+          c = observe k s'.content) := by
+  obtain ⟨hs, hu⟩ := adapter_opts hcfg hk
+  have hdup : DupFree o (if o.clear then [] else init) (vals E o (elements cuts)) := by
+    intro h; rw [hu] at h; cases h
+  refine ⟨_, C06_fold E hl k o hcfg init hwf cuts hne hsep hacc hdup, ?_, ?_, ?_⟩
+  · rintro rfl; exact finalSpec_stack E o hs hu init _
+  · rintro rfl; exact finalSpec_queue E o hs hu init _
+  · rintro rfl; exact finalSpec_prioq E hl o hu init _
 
 /-- **Unique ⇒ no duplicates**: with `setUniqueData` (and always for a set) the closed form has no value twice,
     provided the content that was kept had none. -/
@@ -151,32 +248,84 @@ theorem C06_element_checked {α : Type} [DecidableEq α] (E : Elem α) (k : SeqK
       rwa [allTokens_usesOf o.sep cuts hsep] at this
     | some x => cases x <;> simp [Out.toRes] at h
 
-/-- **Fold, fixed-size arrays** (`T[N]`, `std::array<T,N>`, the repaired code): if the elements are acceptable,
-    do not repeat when duplicates are errors, and there is room whenever an element arrives, the kept values
-    (sorted if sort) fill the array from the front, the remaining slots keep what they held, `mIndex` is the number
-    of kept values — for every cut. -/
-theorem C06_array_fold (o : Opts) (init : List Int) (cuts : List (List (List Char))) (hne : cuts ≠ [])
-    (hsep : ∀ e ∈ cuts.flatten, o.sep ∉ e) (hacc : ∀ e ∈ elements cuts, AcceptsI o e)
-    (hdup : DupFreeI o (valsI o (elements cuts)))
-    (hfit : Fits o init.length [] (valsI o (elements cuts))) :
-    arrRunP o false ⟨init, 0⟩ (usesOf o.sep cuts) = (arrFinalSpec o init (valsI o (elements cuts)), none) := by
+/-- **Fold, fixed-size arrays** (`T[N]`, `std::array<T,N>`, the repaired code; any element type with a lawful
+    order, in particular `int` and `std::string`): if the elements are acceptable, do not repeat when duplicates are
+    errors, and there is room whenever an element arrives, the kept values (sorted if sort) fill the array from the
+    front, the remaining slots keep what they held, `mIndex` is the number of kept values — for every cut. -/
+theorem C06_array_fold {α : Type} [DecidableEq α] (E : Elem α) (hl : LawfulLe E.le) (o : Opts) (init : List α)
+    (cuts : List (List (List Char))) (hne : cuts ≠ [])
+    (hsep : ∀ e ∈ cuts.flatten, o.sep ∉ e) (hacc : ∀ e ∈ elements cuts, AcceptsI E o e)
+    (hdup : DupFreeI o (valsI E o (elements cuts)))
+    (hfit : Fits o init.length [] (valsI E o (elements cuts))) :
+    arrRunP E o false ⟨init, 0⟩ (usesOf o.sep cuts) = (arrFinalSpec E o init (valsI E o (elements cuts)), none) := by
   have htok := allTokens_usesOf o.sep cuts hsep
-  have := arrRunP_finalSpec o init (usesOf o.sep cuts) (usesOf_ne_nil hne) (by rw [htok]; exact hacc)
+  have := arrRunP_finalSpec E hl o init (usesOf o.sep cuts) (usesOf_ne_nil hne) (by rw [htok]; exact hacc)
     (by rw [htok]; exact hdup) (by rw [htok]; exact hfit)
   rw [this, htok]
 
-/-- **Capacity, arrays**: an element that arrives when all N slots are filled is refused with
-    `std::runtime_error` and the array is unchanged; and for *every* input (any uses, any options, even the
-    unrepaired duplicate search) the model never stores outside the N slots and the array keeps its size. -/
-theorem C06_capacity_array (o : Opts) (w : Bool) (s : ArrState) (t : List Char) (ts : List (List Char))
-    (uses : List (List Char)) :
-    (s.idx = s.slots.length → arrElems o w s (t :: ts) = (s, some (.exc .runtime_error))) ∧
-    (s.idx ≤ s.slots.length → (∀ x, (arrRunP o w s uses).2 ≠ some (.oob x)) ∧
-      (arrRunP o w s uses).1.slots.length = s.slots.length) := by
+/-- **Capacity, arrays, whole evaluations: the (N+1)-th element is refused and the first N stay.**
+    `elements cuts = pre ++ t :: post` where the elements `pre` are acceptable (no repeat if duplicates are
+    errors), there was room for each of them (`Fits`) and together they left exactly N kept values; `t` — any
+    text at all, acceptable or not, new or duplicate — and what follows are arbitrary.  Then, however the sequence is
+    cut into uses, the evaluation ends with `std::runtime_error`, `mIndex` is N, and the N slots hold the kept
+    values of `pre`: exactly in arrival order without sort; with sort as a rearrangement (the use that is
+    interrupted is not sorted, so the order on this error path depends on the cut). -/
+theorem C06_array_overflow {α : Type} [DecidableEq α] (E : Elem α) (hl : LawfulLe E.le) (o : Opts) (init : List α)
+    (cuts : List (List (List Char))) (hsep : ∀ e ∈ cuts.flatten, o.sep ∉ e)
+    (pre post : List (List Char)) (t : List Char) (hsplit : elements cuts = pre ++ t :: post)
+    (hacc : ∀ e ∈ pre, AcceptsI E o e) (hdup : DupFreeI o (valsI E o pre))
+    (hfit : Fits o init.length [] (valsI E o pre))
+    (hfull : (keepA o (valsI E o pre)).length = init.length) :
+    ∃ s', arrRunP E o false ⟨init, 0⟩ (usesOf o.sep cuts) = (s', some (.exc .runtime_error)) ∧
+      s'.idx = init.length ∧ s'.slots.Perm (keepA o (valsI E o pre)) ∧
+      (o.sort = false → s'.slots = keepA o (valsI E o pre)) := by
+  have htok := allTokens_usesOf o.sep cuts hsep
+  obtain ⟨s', hs', hi'⟩ := arrRunP_overflow E hl o init (usesOf o.sep cuts) ⟨init, 0⟩ [] pre post t
+    (arrInv_start o init) (by rw [htok]; exact hsplit) hacc (by simpa using hdup) (by simpa using hfit)
+    (by simpa using hfull)
+  rw [List.nil_append] at hi'
+  exact ⟨s', hs', full_of_inv hi' hfull⟩
+
+/-- **Capacity, arrays: `¬ Fits` ⇒ the evaluation throws and the slots hold the first N kept values.**
+    All elements acceptable (no repeat if duplicates are errors) but at some point an element arrives at a full
+    array: `std::runtime_error`, and the N slots hold the first N kept values — `(keepA o vs).take N`, in arrival
+    order without sort, as a rearrangement with sort.  Together with `C06_array_fold` (`Fits` ⇒ success) this
+    decides every acceptable element sequence. -/
+theorem C06_array_not_fits {α : Type} [DecidableEq α] (E : Elem α) (hl : LawfulLe E.le) (o : Opts) (init : List α)
+    (cuts : List (List (List Char))) (hsep : ∀ e ∈ cuts.flatten, o.sep ∉ e)
+    (hacc : ∀ e ∈ elements cuts, AcceptsI E o e) (hdup : DupFreeI o (valsI E o (elements cuts)))
+    (hnf : ¬ Fits o init.length [] (valsI E o (elements cuts))) :
+    ∃ s', arrRunP E o false ⟨init, 0⟩ (usesOf o.sep cuts) = (s', some (.exc .runtime_error)) ∧
+      s'.idx = init.length ∧
+      s'.slots.Perm ((keepA o (valsI E o (elements cuts))).take init.length) ∧
+      (o.sort = false → s'.slots = (keepA o (valsI E o (elements cuts))).take init.length) := by
+  obtain ⟨a, x, b, hsplit, hfa, hge⟩ := not_fits_split o init.length _ [] hnf
+  rw [List.nil_append] at hge
+  have hfull := fits_full_eq o _ a hfa hge
+  obtain ⟨pre, t, post, hts, hpre⟩ := valsI_split E o (elements cuts) hacc a x b hsplit
+  subst hpre
+  have hdup' : DupFreeI o (valsI E o pre) := by rw [hsplit] at hdup; exact hdup.left
+  obtain ⟨r, hr⟩ := keepA_append_prefix o (valsI E o pre) (x :: b)
+  have htake : (keepA o (valsI E o (elements cuts))).take init.length = keepA o (valsI E o pre) := by
+    rw [hsplit, hr]; exact List.take_left' hfull
+  rw [htake]
+  exact C06_array_overflow E hl o init cuts hsep pre post t hts
+    (fun e he => hacc e (by rw [hts]; exact List.mem_append_left _ he)) hdup' hfa hfull
+
+/-- **Capacity, arrays, one step and memory safety** (lemma level; the clause "the (N+1)-th element is refused"
+    over whole evaluations is `C06_array_overflow` / `C06_array_not_fits`): an element that arrives when all N slots
+    are filled is refused with `std::runtime_error` and the array is unchanged; and for *every* input (any uses, any
+    options, even the unrepaired duplicate search) the model never stores outside the N slots and the array keeps
+    its size. -/
+theorem C06_capacity_array {α : Type} [DecidableEq α] (E : Elem α) (o : Opts) (w : Bool) (s : ArrState α)
+    (t : List Char) (ts : List (List Char)) (uses : List (List Char)) :
+    (s.idx = s.slots.length → arrElems E o w s (t :: ts) = (s, some (.exc .runtime_error))) ∧
+    (s.idx ≤ s.slots.length → (∀ x, (arrRunP E o w s uses).2 ≠ some (.oob x)) ∧
+      (arrRunP E o w s uses).1.slots.length = s.slots.length) := by
   constructor
   · intro h
-    rw [arrElems, arrStep_full o w s t h]
-  · exact arrRunP_safe o w uses s
+    rw [arrElems, arrStep_full E o w s t h]
+  · exact arrRunP_safe E o w uses s
 
 /-- **Fold, bitsets**: if every element passes the checks and converts to a position below N, the result is
     the previous bits (all clear if clear-before-assign) with these positions set — for every cut; bit `i`
@@ -198,8 +347,9 @@ theorem C06_bitset_fold (o : Opts) (init : List Bool) (cuts : List (List (List C
     · simp
     · simp [List.getD_eq_getElem?_getD, hi]
 
-/-- **Capacity, bitsets**: a position ≥ N is refused with `std::runtime_error` (the bits keep their value); no
-    input makes the model write outside the bits, and their number never changes. -/
+/-- **Capacity, bitsets, one step and memory safety** (whole evaluations: `C06_bitset_outside`): a position ≥ N
+    is refused with `std::runtime_error` (the bits keep their value); no input makes the model write outside the
+    bits, and their number never changes. -/
 theorem C06_capacity_bitset (o : Opts) (b : List Bool) (t : List Char) (p : Nat)
     (hchk : runChecks o.checks t = none) (hv : valP o t = some p) (hp : b.length ≤ p) (ts : List (List Char)) :
     bitElems o b (t :: ts) = (b, some (.exc .runtime_error)) ∧
@@ -207,10 +357,25 @@ theorem C06_capacity_bitset (o : Opts) (b : List Bool) (t : List Char) (p : Nat)
   refine ⟨?_, fun t' x => (bitStep_safe o b t').1 x, fun t' b' => (bitStep_safe o b t').2 b'⟩
   rw [bitElems, bitStep_outside o b t p hchk hv hp]
 
+/-- **Capacity, bitsets, whole evaluations**: `elements cuts = pre ++ t :: post`, the elements `pre` are
+    acceptable positions below N, `t` passes the checks and converts to a position ≥ N (what follows is
+    arbitrary).  Then, however the sequence is cut into uses, the evaluation ends with `std::runtime_error` and the
+    bits are the previous bits (all clear if clear-before-assign) with exactly the positions of `pre` set. -/
+theorem C06_bitset_outside (o : Opts) (init : List Bool) (cuts : List (List (List Char)))
+    (hsep : ∀ e ∈ cuts.flatten, o.sep ∉ e) (pre post : List (List Char)) (t : List Char) (p : Nat)
+    (hsplit : elements cuts = pre ++ t :: post) (hacc : ∀ e ∈ pre, AcceptsP o init.length e)
+    (hchk : runChecks o.checks t = none) (hv : valP o t = some p) (hp : init.length ≤ p) :
+    bitRunP o ⟨init, o.clear⟩ (usesOf o.sep cuts)
+      = (⟨setAll (if o.clear then init.map (fun _ => false) else init) (valsP o pre), false⟩,
+         some (.exc .runtime_error)) := by
+  have htok := allTokens_usesOf o.sep cuts hsep
+  exact bitRunP_outside_start o init (usesOf o.sep cuts) pre post t p (by rw [htok]; exact hsplit) hacc hchk hv hp
+
 /-- **Fold, key-value destinations** (`std::map<int,std::string>`): if every element is a well-formed pair
     that passes the checks (and no key repeats when duplicates are errors), the content is the previous content
     (nothing if clear) with every pair inserted in order, an existing key keeping its value — for every cut; the
-    keys stay strictly ascending. -/
+    keys stay strictly ascending.  `mapFinalSpec` folds the model's own `mapInsert`; the statement that does not
+    depend on it ("first value per key wins", as seen by `find`) is `C06_map_lookup` + `C06_map_determined`. -/
 theorem C06_map_fold (o : MapOpts) (init : List Pair) (hwf : KeysSorted init) (cuts : List (List (List Char)))
     (hne : cuts ≠ []) (hsep : ∀ e ∈ cuts.flatten, o.sep ∉ e) (hacc : ∀ e ∈ elements cuts, AcceptsM o e)
     (hdup : DupFreeM o (if o.clear then [] else init) (pairsOf o (elements cuts))) :
@@ -226,6 +391,32 @@ theorem C06_map_fold (o : MapOpts) (init : List Pair) (hwf : KeysSorted init) (c
     cases o.clear
     · exact hwf
     · simp [KeysSorted, keysOf]
+
+/-- **Key-value destinations at lookup level: the first value per key wins** (stated through `valueAt` =
+    what `find( key)` shows, not through the model's `mapInsert`).  Under the hypotheses of `C06_map_fold` the
+    evaluation succeeds, the keys of the result are strictly ascending, and for every key the result shows the value
+    of the first pair with that key in "previous content (nothing if clear), then the pairs given, in order":
+    a key that was there keeps its value, a new key gets the value it was given first. -/
+theorem C06_map_lookup (o : MapOpts) (init : List Pair) (hwf : KeysSorted init) (cuts : List (List (List Char)))
+    (hne : cuts ≠ []) (hsep : ∀ e ∈ cuts.flatten, o.sep ∉ e) (hacc : ∀ e ∈ elements cuts, AcceptsM o e)
+    (hdup : DupFreeM o (if o.clear then [] else init) (pairsOf o (elements cuts))) :
+    ∃ c, mapRunP o ⟨init, o.clear⟩ (usesOf o.sep cuts) = (⟨c, false⟩, none) ∧ KeysSorted c ∧
+      ∀ key, valueAt key c = valueAt key ((if o.clear then [] else init) ++ pairsOf o (elements cuts)) := by
+  obtain ⟨hrun, hsorted⟩ := C06_map_fold o init hwf cuts hne hsep hacc hdup
+  refine ⟨_, hrun, hsorted, ?_⟩
+  intro key
+  have hb : KeysSorted (if o.clear then [] else init) := by
+    cases o.clear
+    · exact hwf
+    · simp [KeysSorted, keysOf]
+  show valueAt key (insertAll _ _) = _
+  rw [valueAt_insertAll key _ _ hb, valueAt_append]
+
+/-- **The lookup view determines the map**: two contents with strictly ascending keys that show the same value
+    for every key are equal — so `C06_map_lookup` fixes the content completely. -/
+theorem C06_map_determined (c₁ c₂ : List Pair) (h₁ : KeysSorted c₁) (h₂ : KeysSorted c₂)
+    (h : ∀ key, valueAt key c₁ = valueAt key c₂) : c₁ = c₂ :=
+  keysSorted_ext c₁ c₂ h₁ h₂ h
 
 /-- **Tuples, partial.**  A `std::tuple<int,std::string,int>` destination given exactly its three elements —
     in one list, or split `1+2`, `2+1`, `1+1+1` over uses, every use carrying at least one element; empty elements
@@ -293,13 +484,45 @@ example : finalSpec intElem .set {} [1, 5] [3, 5, 3] = [1, 3, 5] := by decide
 /-- clear-before-assign -/
 example : finalSpec strElem .vec { clear := true } [['x']] [['b'], ['a']] = [['b'], ['a']] := by decide
 /-- arrays: `-v 0,1 -v 9` into int[4] = {9,9,0,0} with unique: the zero is stored (repaired code) -/
-example : arrRunP { unique := true } false ⟨[9, 9, 0, 0], 0⟩ [['0', ',', '1'], ['9']] = (⟨[0, 1, 9, 0], 3⟩, none) := by
+example : arrRunP intElem { unique := true } false ⟨[9, 9, 0, 0], 0⟩ [['0', ',', '1'], ['9']] = (⟨[0, 1, 9, 0], 3⟩, none) := by
   decide
 /-- the code before the repair dropped the zero and the nine -/
-example : arrRunP { unique := true } true ⟨[9, 9, 0, 0], 0⟩ [['0', ',', '1'], ['9']] = (⟨[1, 9, 0, 0], 1⟩, none) := by
+example : arrRunP intElem { unique := true } true ⟨[9, 9, 0, 0], 0⟩ [['0', ',', '1'], ['9']] = (⟨[1, 9, 0, 0], 1⟩, none) := by
   decide
-example : Fits {} 4 [] [0, 1, 9] := by intro j hj; simp at hj; rcases j with _ | _ | _ | j <;> simp [keepA] <;> omega
-example : arrElems {} false ⟨[1, 2], 2⟩ [['3']] = (⟨[1, 2], 2⟩, some (.exc .runtime_error)) := by decide
+example : Fits {} 4 [] ([0, 1, 9] : List Int) := by intro j hj; simp at hj; rcases j with _ | _ | _ | j <;> simp [keepA] <;> omega
+example : arrElems intElem {} false ⟨[1, 2], 2⟩ [['3']] = (⟨[1, 2], 2⟩, some (.exc .runtime_error)) := by decide
+/-- arrays of strings, sorted -/
+example : arrRunP strElem { sort := true } false ⟨[[], []], 0⟩ [['b', ',', 'a']] = (⟨[['a'], ['b']], 2⟩, none) := by
+  decide
+/-- all hypotheses of `C06_array_overflow` together: `-v 1,2 -v 3` into int[2] -/
+example : ∃ s', arrRunP intElem {} false ⟨[0, 0], 0⟩ (usesOf ',' [[['1'], ['2']], [['3']]])
+      = (s', some (.exc .runtime_error)) ∧ s'.idx = 2 ∧ s'.slots.Perm [1, 2] ∧ (true → s'.slots = [1, 2]) := by
+  have hv : valsI intElem {} [['1'], ['2']] = [1, 2] := by decide
+  have := C06_array_overflow intElem intLe_lawful {} [0, 0] [[['1'], ['2']], [['3']]] (by decide)
+    [['1'], ['2']] [] ['3'] (by decide)
+    (by intro e he; simp at he; rcases he with rfl | rfl <;> exact ⟨by rfl, by rfl⟩)
+    (by intro h; cases h)
+    (by rw [hv]; intro j hj; simp at hj; rcases j with _ | _ | j <;> simp [keepA] <;> omega)
+    (by rw [hv]; rfl)
+  rw [hv] at this
+  simpa [keepA] using this
+example : ¬ Fits {} 2 [] ([1, 2, 3] : List Int) := fun h => by
+  have := h 2 (by simp)
+  simp [keepA] at this
+/-- bitset<4>, `-v 1,4`: position 4 is refused, bit 1 stays set -/
+example : bitRunP {} ⟨[false, false, false, false], false⟩ [['1', ',', '4']]
+    = (⟨[false, true, false, false], false⟩, some (.exc .runtime_error)) := by rfl
+example : valP {} ['4'] = some 4 := by decide
+/-- pop order: a stack [1,2] (2 on top) given 3,4 pops 4,3,2,1; a priority queue pops descending -/
+example : observe .stack (finalSpec intElem .stack {} [1, 2] [3, 4]) = [4, 3] ++ observe .stack [1, 2] := by decide
+example : observe .prioq (finalSpec intElem .prioq {} [1, 5] [3]) = [5, 3, 1] := by decide
+example : configure .prioq {} = .ok () ∧ SeqKind.prioq.hasIterators = false := ⟨rfl, rfl⟩
+/-- lookup view: key 1 keeps 'a' although 1,z is given; key 2 is new -/
+example : valueAt 1 (mapFinalSpec {} [(1, ['a'])] [(2, ['b']), (1, ['z'])]) = some ['a'] ∧
+    valueAt 2 (mapFinalSpec {} [(1, ['a'])] [(2, ['b']), (1, ['z'])]) = some ['b'] ∧
+    valueAt 1 ([(1, ['a'])] ++ [(2, ['b']), (1, ['z'])]) = some ['a'] := by decide
+/-- unique keeps first occurrences only, in order -/
+example : dedupInto [9] [3, 9, 1, 3] = ([3, 1] : List Int) := by decide
 example : AcceptsP {} 8 ['7'] := ⟨rfl, 7, by decide, by decide⟩
 example : KeysSorted [(1, ['a']), (3, ['c'])] := by simp [KeysSorted, keysOf]
 example : mapPairOf {} ['2', ',', 'b'] = some (2, ['b']) := by decide
